@@ -12,8 +12,9 @@ Arr(nd, perm, pl) == Fresh([i \in 1..nd |-> DimNames[perm[i]]], [i \in 1..nd |->
 Perms(n) == {p \in [1..n -> 1..3] : \A i, j \in 1..n : i # j => p[i] # p[j]}
 Init == in = <<>> /\ out = <<>> /\ ph = 0
 Choose == /\ ph = 0 /\ ph' = 1
-          /\ \E nd \in 0..3 : \E p \in Perms(nd) : \E pl \in 1..Len(Pools) : \E bad \in {"", "shape", "dupnames"} :
-               /\ (bad = "shape" => nd >= 1) /\ (bad = "dupnames" => nd >= 2)
+          /\ \E nd \in 0..3 : \E p \in Perms(nd) : \E pl \in 1..Len(Pools) : \E bad \in {"", "shape", "dupnames", "ndim"} :
+               \* ndim: the data have more (or fewer) dimensions than there are axes, the leading lengths agreeing
+               /\ (bad = "shape" => nd >= 1) /\ (bad = "dupnames" => nd >= 2) /\ (bad = "ndim" => nd >= 1)
                /\ in' = [a |-> Arr(nd, p, pl), bad |-> bad]
                /\ out' = [ok |-> bad = "", val |-> Arr(nd, p, pl)]
                /\ (Emit => PrintT(ToJson([op |-> "construct", in |-> in', out |-> out'])))
